@@ -111,9 +111,17 @@ def rule_pure_observers(ctx, only_timestamps=False):
                 bad.append(('state-write', '%s.%s' % (adt.split('::')[-1], f), ('write', adt, f)))
         # F2b any other state of the cache object itself: an observer may write nothing of it but what an expiry removal writes (the store, the
         # queues, the two counters) -- a timer, a latch or a cached value written by an observer is state a later operation branches on
+        # (what the expiry step itself writes is the reference, whatever the fields are called: `usage`, `counters`, ...)
+        allowed_f = {'cache', 'deques', 'entry_count', 'weighted_size'}
+        try:
+            exp_role = named(ctx, 'unsync.evict_expired' if kind == 'unsync' else 'sync.evict_expired')
+            for x_ in (prog.reachable_from([exp_role]) | {exp_role}) if exp_role in prog.bodies else ():
+                allowed_f |= {e_[2] for e_ in eff.direct.get(x_, ()) if e_[0] == 'write'}
+        except Exception:
+            pass
         for e in tr:
             if e[0] == 'write' and e[1] in ('unsync::cache::Cache', 'sync::base_cache::Inner', 'sync::base_cache::BaseCache', 'sync::cache::Cache') and \
-                    e[2] not in ('cache', 'deques', 'entry_count', 'weighted_size') and not only_timestamps:
+                    e[2] not in allowed_f and not only_timestamps:
                 bad.append(('state-write', '%s.%s' % (e[1].split('::')[-1], e[2]), e))
         # F3 recency
         for role, fns in (('move-to-back', R.move), ('push-back', R.push)):
